@@ -292,7 +292,14 @@ impl Walk<'_> {
             return None;
         };
         match self.pass.draws.get(&(2, dc)) {
-            Some((_, res)) if *res < n => {
+            Some((w, res)) if *res < n => {
+                if w.get(*res).map_or(false, |p| *p == 0.0) {
+                    self.err = Some((
+                        "draw:zero-probability-outcome".into(),
+                        format!("pass {}: chance infoset {} drew outcome {} whose presented probability is exactly 0 (weights {:?})", self.pass.pass, dc, res, w),
+                    ));
+                    return None;
+                }
                 self.used_draws.insert((2, dc), true);
                 Some(*res)
             }
